@@ -50,31 +50,38 @@ def I4096LIM : Int := 2 ^ 4095
 /-- a value of type `I4096` produced by `*`, `+` (overflow panics in the checked profile) -/
 def fit4096 (x : Int) : Option Int := if -I4096LIM ≤ x ∧ x < I4096LIM then some x else none
 
-/-- inner loop `for j in 0..modp.len()` computing `crt_basis[i]` (before the final `*= inv`) and
-`inv`; state `(basis, inv)`. -/
-def crtBasisLoop (inv : Inv) (primes : List Nat) (i pi : Nat) :
-    List Nat → Int → Nat → Option (Int × Nat)
-  | [], b, a => some (b, a)
-  | j :: js, b, a =>
-    if i = j then crtBasisLoop inv primes i pi js b a
-    else
-      match primes[j]? with
+/-- `l.mapM f` for `Option`, written out (used by the theorems) -/
+def mapOpt {α β} (f : α → Option β) : List α → Option (List β)
+  | [] => some []
+  | a :: as =>
+    match f a with
+    | none => none
+    | some b =>
+      match mapOpt f as with
       | none => none
-      | some pj =>
-        match fit4096 (b * pj) with
-        | none => none
-        | some b' =>
-          match inv pj pi with
-          | some (some ij) =>
-            if pi = 0 then none else crtBasisLoop inv primes i pi js b' (a * ij % pi)
-          | _ => none                                  -- unwrap / panic inside inv_mod64
+      | some bs => some (b :: bs)
 
-/-- `crt_basis[i]` -/
-def crtBasis (inv : Inv) (primes : List Nat) (n i : Nat) : Option Int :=
-  match primes[i]? with
+/-- inner loop `for j in 0..modp.len()` computing `crt_basis[i]` (before the final `*= inv`) and
+`inv`: `ps` = the primes not yet visited, `j` = index of the head of `ps`, state `(basis, inv)`. -/
+def crtBasisLoop (inv : Inv) (i pi : Nat) : List Nat → Nat → Int → Nat → Option (Int × Nat)
+  | [], _, b, a => some (b, a)
+  | pj :: ps, j, b, a =>
+    if i = j then crtBasisLoop inv i pi ps (j + 1) b a
+    else
+      match fit4096 (b * pj) with
+      | none => none
+      | some b' =>
+        match inv pj pi with
+        | some (some ij) =>
+          if pi = 0 then none else crtBasisLoop inv i pi ps (j + 1) b' (a * ij % pi)
+        | _ => none                                      -- unwrap / panic inside inv_mod64
+
+/-- `crt_basis[i]`; `ps` = `primes[..modp.len()]` -/
+def crtBasis (inv : Inv) (ps : List Nat) (i : Nat) : Option Int :=
+  match ps[i]? with
   | none => none
   | some pi =>
-    match crtBasisLoop inv primes i pi (List.range n) 1 1 with
+    match crtBasisLoop inv i pi ps 0 1 1 with
     | none => none
     | some (b, a) => fit4096 (b * a)
 
@@ -109,10 +116,11 @@ def crtDense (inv : Inv) (modp primes : List Nat) : Option Int :=
   let n := modp.length
   if primes.length < n then none                        -- primes[i], &primes[..n]
   else
-    match (List.range n).mapM (crtBasis inv primes n) with
+    let ps := primes.take n
+    match mapOpt (crtBasis inv ps) (List.range n) with
     | none => none
     | some basis =>
-      match crtProd (primes.take n) 1 with
+      match crtProd ps 1 with
       | none => none
       | some prod =>
         match crtSum modp basis 0 with
@@ -121,16 +129,19 @@ def crtDense (inv : Inv) (modp primes : List Nat) : Option Int :=
 
 /-! ### crt (intsparse.rs): `_crt::<N>`; bnum widths are not modelled (primes < 2^63) -/
 
-/-- `fwdprods[i] * revprods[i]` = product of the first `n` primes except the `i`-th -/
-def prodExcept (primes : List Nat) (n i : Nat) : Nat :=
-  ((List.range n).filter (· ≠ i)).foldl (fun acc j => acc * primes.getD j 1) 1
+/-- product of the entries of `ps` whose index (the head has index `j`) is not `i`:
+`fwdprods[i] * revprods[i]` for `j = 0` -/
+def prodSkip (i : Nat) : List Nat → Nat → Nat
+  | [], _ => 1
+  | p :: ps, j => if i = j then prodSkip i ps (j + 1) else p * prodSkip i ps (j + 1)
 
-def crtSparseTerm (inv : Inv) (modp primes : List Nat) (n i : Nat) : Option Int :=
-  match modp[i]?, primes[i]? with
+/-- `BInt::from(mi) * basis` for index `i`; `ps` = `primes[..modp.len()]` -/
+def crtSparseTerm (inv : Inv) (modp ps : List Nat) (i : Nat) : Option Int :=
+  match modp[i]?, ps[i]? with
   | some mi, some pi =>
     if pi = 0 then none
     else
-      let basis := prodExcept primes n i
+      let basis := prodSkip i ps 0
       match inv (basis % pi) pi with
       | some (some iv) => some ((mi * iv % pi * basis : Nat) : Int)
       | _ => none
@@ -143,9 +154,10 @@ def crtSparse (inv : Inv) (modp primes : List Nat) : Option Int :=
   else if n = 1 then some (modp.getD 0 0 : Nat)
   else if primes.length < n then none
   else
-    match (List.range n).mapM (crtSparseTerm inv modp primes n) with
+    let ps := primes.take n
+    match mapOpt (crtSparseTerm inv modp ps) (List.range n) with
     | none => none
-    | some terms => symLift (terms.foldl (· + ·) 0) (((primes.take n).foldl (· * ·) 1 : Nat) : Int)
+    | some terms => symLift terms.sum (ps.prod : Nat)
 
 /-! ### the permutation sign loop of `GFpEchelonBuilder::det` -/
 
@@ -541,7 +553,6 @@ def latticeIndex1 (col : List Int) (lo hi den : Nat) : Option Nat :=
   if col.isEmpty then
     if w.L ≤ w.den ∧ (w.den : Int) ≤ w.H then some 1 else none
   else if !w.ok then none
-  else if col.any (fun x => x * x ≥ 2 ^ 63) then none      -- `y * y` in the sort key (i64)
   else
     let s := sortBySquare col
     let starts := List.range (max 4 s.length - 3)
